@@ -4,7 +4,7 @@ from .common import hx, rbytes, budget
 HARNESS = "c15"
 CONST_GROUPS = ["message", "storage"]
 TIMEOUT = 3000
-RULE = ("incarnations <p> <n>: p successive processes create their first n message ids of one channel within one second, no id may repeat (ids are the store keys); "
+RULE = ("plant: a zero-length NNNNN.mem file appears in the directory (what a kill inside badger's memtable creation / deletion leaves), the store must open all the same; run lateclose <k>: the store is closed after k stores while further Store calls follow (clean stop overlapping publishers), only acknowledged stores must be present afterwards; incarnations <p> <n>: p successive processes create their first n message ids of one channel within one second, no id may repeat (ids are the store keys); "
         "sessions on one directory: reset <retain> / run <how> <k> <d> <workers> <fill> <messages…> / check <page limit> <how> / sleep. "
         "run re-executes the harness as a child process that opens storage.SSD on the directory, stores the messages (1 or 4 "
         "goroutines) and writes an acknowledgement to a pipe after every Store that returned; how = clean (Close, exit), kill (SIGKILL "
@@ -104,7 +104,11 @@ def session(rng, ops, cycles, size, fill=None, soon=False, retain=None):
             m = s.msg(uniq).split(":")
             m[0] += "/%d" % rng.choice([0, 4, 7])
             msgs.insert(rng.randrange(len(msgs) + 1), ":".join(m))
-        if how == "kill":
+        if how == "clean" and c > 0 and rng.randrange(3) == 0:
+            how = "lateclose"          # the store is closed after k stores, the rest must be refused
+        if how == "lateclose":
+            k = rng.choice([0, 1, n // 2, max(0, n - 1)])
+        elif how == "kill":
             k = rng.choice([0, 1, n // 3, n // 2, rng.randrange(n + 1), n, n + 1])
         elif how == "killopen":
             k = rng.choice([0, 300, 2000, 10000, 30000, 80000])
@@ -116,6 +120,8 @@ def session(rng, ops, cycles, size, fill=None, soon=False, retain=None):
             f = fill[c]
             how, k, workers = "kill", rng.randrange(n // 4, n), 4
         ops.append("run %s %d %d %d %s %s" % (how, k, d, workers, f, " ".join(msgs)))
+        if rng.randrange(4) == 0:
+            ops.append("plant")        # leftover of a kill inside badger's memtable creation / deletion
         r = rng.randrange(10)
         if r < 7 or c == cycles - 1:
             ops.append("check %d %s" % (rng.choice([1, 2, 7, 50, 100, 1000]) if n < 60 else rng.choice([20, 50, 100, 1000]),
@@ -128,8 +134,27 @@ def session(rng, ops, cycles, size, fill=None, soon=False, retain=None):
     ops.append("check %d clean" % rng.choice([64, 1000]))
 
 
+def fault_session(rng, ops):
+    """deterministic coverage of the two rare stop situations: a zero-length memtable file left by a kill inside
+    badger's file creation / deletion, and a clean stop that overlaps Store calls"""
+    s = Sess(rng)
+    ops.append("reset 0")
+    u = rng.getrandbits(32)
+    ops.append("run clean 0 0 1 0x0 %s" % " ".join(s.msg(u, "n") for _ in range(3)))
+    ops.append("plant")
+    ops.append("check 100 clean")
+    ops.append("run lateclose %d 0 1 0x0 %s" % (rng.choice([1, 2]), " ".join(s.msg(u, "n") for _ in range(4))))
+    ops.append("check 100 clean")
+    ops.append("plant")
+    ops.append("run kill 2 0 1 0x0 %s" % " ".join(s.msg(u, "n") for _ in range(3)))
+    ops.append("check 100 %s" % rng.choice(["clean", "kill"]))
+    ops.append("run lateclose 0 0 1 0x0 %s" % " ".join(s.msg(u, "n") for _ in range(2)))
+    ops.append("check 100 clean")
+
+
 def gen(rng, tier):
     ops = ["reset 0", "incarnations 3 %d" % rng.choice([4, 8])]
+    fault_session(rng, ops)
     if tier != "thorough":
         session(rng, ops, 4, 160)
         session(rng, ops, 3, 80, soon=True)
